@@ -1,0 +1,98 @@
+//go:build verif
+
+// Machine-checked contracts of the Balance contract (comment-only; read by the
+// verifier in /verif, ignored by every compiler because of the build tag).
+
+package balance
+
+/*@
+module core
+props C01 C02 C09
+use common core
+dialect neovm
+
+pure akey(a Bytes) Bytes            = "a" ++ a
+pure acct(s Store, a Bytes) Account = s.has(akey(a)) ? deser_Account(s.get(akey(a))) : Account{0, 0, nil}
+pure bal(s Store, a Bytes) Int      = acct(s, a).Balance
+pure supply(s Store) Int            = s.has("MainnetGAS") ? b2i(s.get("MainnetGAS")) : 0
+pure usable(a Bytes) Bool           = len(a) == 20 && (W(a) || callingScriptHash == a)
+pure expired(s Store, a Bytes, e Int) Bool = s.has(akey(a)) && acct(s, a).Until != 0 && e >= acct(s, a).Until
+fold SumBal(s Store) Int = sum k in keys(s) where prefix("a", k) && len(k) == 21 : deser_Account(s.get(k)).Balance
+
+pred NonNeg(s Store)  = forall a Bytes {s.opt(akey(a))} :: len(a) == 20 ==> bal(s, a) >= 0
+pred SameBut2(s Store, t Store, x Bytes, y Bytes) = forall k Bytes {s.opt(k)} :: k != akey(x) && k != akey(y) ==> s.opt(k) == t.opt(k)
+pred LockWF(s Store) = forall a Bytes {s.opt(akey(a))} :: s.has(akey(a)) && acct(s, a).Until != 0 ==> len(acct(s, a).Parent) == 20
+
+// C01: no negative balance, supply equals the sum of all balances; LockWF: a lock account names a 20-byte parent
+invariant InvBalance [C01] = NonNeg(store) && supply(store) == SumBal(store)
+invariant InvLocks [C09] = LockWF(store)
+
+func getAccount(ctx, key) (r)
+  pure
+  ensures r == acct(store, key)
+
+func (t Token) getSupply(ctx) (r)
+  pure
+  ensures r == supply(store)
+
+func isUsableAddress(addr) (r)
+  pure
+  ensures [C02] r == usable(addr)
+
+func (t Token) canTransfer(ctx, from, to, amount, innerRing) (acc, ok)
+  pure
+  ensures ok <==> amount >= 0 && ((!innerRing && len(to) == 20 && usable(from) && bal(store, from) >= amount)
+               || (innerRing && (len(from) == 0 || bal(store, from) >= amount)))
+  ensures ok && !(innerRing && len(from) == 0) ==> acc == acct(store, from)
+
+func (t Token) transfer(ctx, from, to, amount, innerRing, details) (ok)
+  requires NonNeg(store)
+  ensures ok <==> amount >= 0 && ((!innerRing && len(to) == 20 && usable(from) && old(bal(store, from)) >= amount)
+               || (innerRing && (len(from) == 0 || old(bal(store, from)) >= amount)))
+  ensures [C01,C02] !ok ==> store == old(store) && notifs == old(notifs)
+  ensures [C01] ok ==> notifs == old(notifs) ++ [Transfer(from, to, amount), TransferX(from, to, amount, details)]
+  ensures [C01] ok ==> forall a Bytes {store.opt(akey(a))} :: len(a) == 20 ==>
+            bal(store, a) == old(bal(store, a)) - (a == from ? amount : 0) + (a == to ? amount : 0)
+  ensures [C01] NonNeg(store)
+  ensures [C01] SumBal(store) == old(SumBal(store)) - (ok && len(from) == 20 ? amount : 0) + (ok && len(to) == 20 ? amount : 0)
+  ensures [C02] ok && !innerRing ==> len(to) == 20 && usable(from)
+  ensures [C02] ok ==> forall a Bytes {store.opt(akey(a))} :: len(a) == 20 && bal(store, a) < old(bal(store, a)) ==> a == from
+  ensures SameBut2(store, old(store), from, to)
+  ensures supply(store) == old(supply(store))
+  ensures [C09] ok && len(to) == 20 && to != from ==> store.has(akey(to))
+            && acct(store, to).Until == old(acct(store, to)).Until && acct(store, to).Parent == old(acct(store, to)).Parent
+  ensures [C09] ok && len(from) == 20 && to != from ==> (old(bal(store, from)) == amount ? !store.has(akey(from))
+            : store.has(akey(from)) && acct(store, from).Until == old(acct(store, from)).Until && acct(store, from).Parent == old(acct(store, from)).Parent)
+  ensures [C09] ok && len(from) == 20 && to == from ==> store.has(akey(from))
+            && acct(store, from).Until == (old(bal(store, from)) == amount ? 0 : old(acct(store, from)).Until)
+            && (old(bal(store, from)) != amount ==> acct(store, from).Parent == old(acct(store, from)).Parent)
+
+func Transfer(from, to, amount, data) (ok)
+  ensures [C02] ok ==> usable(from) && len(to) == 20
+  ensures [C01] supply(store) == old(supply(store))
+  ensures [C01,C02] !ok ==> store == old(store) && notifs == old(notifs)
+  ensures [C02] forall a Bytes {store.opt(akey(a))} :: len(a) == 20 && bal(store, a) < old(bal(store, a)) ==> a == from && usable(from)
+
+func Mint(to, amount, txDetails)
+  requires len(to) == 20
+  ensures W(alphabet())
+  ensures [C01] supply(store) == old(supply(store)) + amount && bal(store, to) == old(bal(store, to)) + amount
+  ensures [C02] forall a Bytes {store.opt(akey(a))} :: len(a) == 20 ==> bal(store, a) >= old(bal(store, a))
+
+func Burn(from, amount, txDetails)
+  requires len(from) == 20
+  ensures W(alphabet())
+  ensures [C01] supply(store) == old(supply(store)) - amount && bal(store, from) == old(bal(store, from)) - amount
+  ensures [C01] supply(store) >= 0
+
+func NewEpoch(epochNum)
+  ensures W(alphabet())
+  ensures [C09] forall a Bytes {store.opt(akey(a))} :: len(a) == 20 ==> !expired(store, a, epochNum)
+  ensures [C01] supply(store) == old(supply(store))
+  loop 0
+    invariant LockWF(store)
+    invariant NonNeg(store) && supply(store) == SumBal(store) && supply(store) == old(supply(store))
+    invariant forall j Int {$it.key(j)} :: 0 <= j < $it.pos && len($it.key(j)) == 21 ==> !expired(store, $it.key(j)[1:], epochNum)
+    invariant forall a Bytes {store.opt(akey(a))} :: store.has(akey(a)) && acct(store, a).Until != 0
+                ==> old(store).has(akey(a)) && acct(store, a).Until == old(acct(store, a)).Until
+@*/
